@@ -70,6 +70,31 @@ def f3(x):
     return [float(np.asarray(v).flatten()[0]) for v in x]
 
 
+def sequence_bad(C, R, s, d, r, rec):
+    """the same normal/slip objects handed to one conversion after another still describe the same source"""
+    fr = frame_of(s, d, r)
+    nvec, uvec = fr
+    Mref = np.outer(nvec, uvec) + np.outer(uvec, nvec)
+    bad = None
+    for mk in (lambda v: np.matrix(np.asarray(v, dtype=float).reshape(3, 1)), lambda v: np.asarray(v, dtype=float).reshape(3, 1).copy()):
+        for order in ((nvec, uvec), (uvec, nvec), (-nvec, -uvec)):
+            a1, a2 = mk(order[0]), mk(order[1])
+            C.normal_SD(a1)
+            C.normal_SD(a2)
+            C.FP_SDSD(a1, a2)
+            seq = f3(C.FP_SDR(a1, a2))
+            Ts, Ns, Ps = C.FP_TNP(a1, a2)
+            Ts, Ps = np.asarray(Ts, dtype=float).flatten(), np.asarray(Ps, dtype=float).flatten()
+            okf = same_frame(frame_of(*seq), fr) or same_frame(frame_of(*seq), aux_frame(fr))
+            if d == 0.0 and any(f['key'] == conv.HORIZONTAL_KEY for f in R.findings):
+                okf = True
+            if not okf or np.abs(np.outer(Ts, Ts) - np.outer(Ps, Ps) - Mref).max() > 1e-9:
+                bad = bad or dict(rec, check='conversion-sequence-on-the-same-objects', got=seq, container=type(a1).__name__,
+                                  tensor_from_axes=(np.outer(Ts, Ts) - np.outer(Ps, Ps)).tolist(), tensor_of_the_source=Mref.tolist(),
+                                  note='normal_SD, normal_SD, FP_SDSD then FP_SDR / FP_TNP on one normal/slip pair')
+    return bad
+
+
 def plane_oracle(R, C, n):
     bad = None
     dist = {}
@@ -108,6 +133,7 @@ def plane_oracle(R, C, n):
                     R.horizontal.append([s, d, r])      # recorded finding, reported once by run()
                 else:
                     bad = bad or dict(rec, check='normal-slip-to-angles', got=back)
+            bad = bad or sequence_bad(C, R, s, d, r, rec)
             # axes -> angles: one of the two nodal planes
             back2 = f3(C.TNP_SDR(T, N, P))
             if not in_range(*back2) or not (same_frame(frame_of(*back2), fr) or same_frame(frame_of(*back2), aux_frame(fr))):
@@ -231,6 +257,8 @@ def replay(R, body):
         print('SDR_SDR(%r, %r, %r) = %r: %s' % (s, d, r, a, 'auxiliary plane' if ok else 'NOT the auxiliary plane'))
         back = f3(C.FP_SDR(np.matrix(fr[0]).T, np.matrix(fr[1]).T))
         print('FP_SDR(normal, slip) = %r' % (back,))
-        return 0 if ok and same_frame(frame_of(*back), fr) else 1
+        sq = sequence_bad(C, R, s, d, r, {})
+        print('sequence of conversions on one normal/slip pair:', sq or 'same source')
+        return 0 if ok and same_frame(frame_of(*back), fr) and not sq else 1
     print('replay of this kind is run through the check itself')
     return 0
